@@ -445,3 +445,12 @@ def du7_whole_before_floor(ctx):
 
 
 RULES = [('DU1', du1_constants), ('DU2', du2_parse_table), ('DU3', du3_additivity), ('DU4', du4_print_chain), ('DU5', du5_formats), ('DU6', du6_as_table), ('DU7', du7_whole_before_floor)]
+
+
+def du8_unique_fields(ctx):
+    """DU8 a pattern that names two fields alike loses one of the matched tokens (shared rule)"""
+    from ..common import unique_field_names
+    unique_field_names(ctx, 'DU8', ('combine_durations', 'duration_parse', 'as_duration', 'to_duration'), floor=10)
+
+
+RULES.append(('DU8', du8_unique_fields))
